@@ -28,6 +28,11 @@ def main():
         if a.verify:
             demo = next((p for p in [d / "demo.py", d / "demo_test.py"] if p.exists()), None)
             if demo:
+                # demos were written to live under <worktree>/_out/m<i>/: run a copy from there
+                dd = Path(wt) / "_out" / "m0"
+                dd.mkdir(parents=True, exist_ok=True)
+                (dd / demo.name).write_text(demo.read_text())
+                demo = dd / demo.name
                 res["demo_without_patch"] = sh(f"/venv/bin/python {demo}", cwd=wt, env=env, timeout=900)[0]
         rc, out = sh(f"git apply {d / 'patch.diff'}", cwd=wt)
         if rc: print("patch does not apply:", out); res["applies"] = False; return res
